@@ -1,6 +1,7 @@
 package main
 
 import (
+	"strings"
 	"time"
 )
 
@@ -118,5 +119,24 @@ type TokCmp struct {
 func (p *Pool) TokCmp(a, b, goal string) (TokCmp, error) {
 	var res TokCmp
 	err := p.Call(map[string]interface{}{"op": "tokcmp", "a": a, "b": b, "goal": goal}, &res)
+	return res, err
+}
+
+type MultiResult struct {
+	RefEvents int          `json:"refEvents"`
+	RefTerm   string       `json:"refTerm"`
+	Results   []PairResult `json:"results"`
+}
+
+func (p *Pool) ExecMulti(ref Prog, outs []Prog, ignoreExports bool) (MultiResult, error) {
+	var res MultiResult
+	// finite results of ** are implementation-approximated: allow a few ulps only in programs that use it
+	powTol := false
+	for _, f := range ref.Files {
+		if strings.Contains(f.Code, "**") || strings.Contains(f.Code, "Math.pow") {
+			powTol = true
+		}
+	}
+	err := p.CallTimeout(map[string]interface{}{"op": "execMulti", "ref": ref, "outs": outs, "opts": map[string]interface{}{"ignoreExports": ignoreExports, "powTol": powTol}}, &res, 600*time.Second)
 	return res, err
 }
